@@ -13,3 +13,66 @@ package keeper
 //@   flag prune
 //@   ensures[C10.up.oracle] isMainnet(unwrap_ctx(goCtx)) && ms.Keeper.authority != old(msg.Authority) ==>
 //@        err != nil && state(unwrap_ctx(goCtx)) == old(state(unwrap_ctx(goCtx)))
+
+// ---------------------------------------------------------------------------------------------
+// C12: stored round ids advance by exactly one per successful append
+
+//@ define priceStoreKey(tok, k) = cat(cat(str("Prices/value/"), cat(u64be(tok), "/")), k)
+//@ define nextRoundRaw(c, tok)  = get(c, "oracle", priceStoreKey(tok, g("x/oracle/types.PricesNextRoundIDKey")))
+//@ define nextRound(c, tok)     = ite(nextRoundRaw(c, tok) == nil || be2u64(nextRoundRaw(c, tok)) == 0, 1, be2u64(nextRoundRaw(c, tok)))
+
+//@ func (Keeper).GetNextRoundID
+//@   requires nextRoundRaw(ctx, tokenID) == nil || (0 <= be2u64(nextRoundRaw(ctx, tokenID)) && be2u64(nextRoundRaw(ctx, tokenID)) < 18446744073709551616)
+//@   ensures[C12.gnr.spec] nextRoundID == nextRound(ctx, tokenID) && nextRoundID >= 1
+
+//@ func (Keeper).IncreaseNextRoundID
+//@   requires nextRoundRaw(ctx, tokenID) == nil || (0 <= be2u64(nextRoundRaw(ctx, tokenID)) && be2u64(nextRoundRaw(ctx, tokenID)) < 18446744073709551615)
+//@   modifies get(ctx, "oracle", priceStoreKey(tokenID, g("x/oracle/types.PricesNextRoundIDKey")))
+//@   ensures[C12.inr.spec] result == old(nextRound(ctx, tokenID)) && nextRound(ctx, tokenID) == old(nextRound(ctx, tokenID)) + 1
+
+// ---------------------------------------------------------------------------------------------
+// C13: nonce admission — consecutive, bounded, nothing changes on rejection
+
+//@ define nonceKey(v)    = cat(str("KeyNonce/value/"), cat(v, "/"))
+//@ define nonceRaw(c, v) = get(c, "oracle", nonceKey(v))
+//@ define nonceList(c, v) = unm["x/oracle/types.ValidatorNonce"](nonceRaw(c, v)).NonceList
+//@ define nonceAt(l, j)  = deref["x/oracle/types.Nonce"](l[j])
+
+// INV(C13): a stored ValidatorNonce is keyed by its own Validator field (setNonce is the only writer)
+//@ func (Keeper).CheckAndIncreaseNonce
+//@   requires nonceRaw(ctx, validator) != nil ==> unm["x/oracle/types.ValidatorNonce"](nonceRaw(ctx, validator)).Validator == validator
+//@   modifies get(ctx, "oracle", nonceKey(validator)), heap["x/oracle/types.Nonce"]
+//@   ensures[C13.cain.atomic]  err != nil ==> state(ctx) == old(state(ctx)) && heapsame["x/oracle/types.Nonce"]()
+//@   ensures[C13.cain.large]   nonce > g("x/oracle/keeper/common.MaxNonce") ==> err != nil
+//@   ensures[C13.cain.unknown] old(nonceRaw(ctx, validator)) == nil ==> err != nil
+//@   ensures[C13.cain.prev]    err == nil ==> prevNonce == wrapu(nonce - 1, 4294967296)
+//@   ensures[C13.cain.consecutive] err == nil ==> exists(j, 0, len(old(nonceList(ctx, validator))),
+//@        old(nonceAt(nonceList(ctx, validator), j).FeederID) == feederID &&
+//@        wrapu(old(nonceAt(nonceList(ctx, validator), j).Value) + 1, 4294967296) == nonce &&
+//@        forall(i, 0, j, old(nonceAt(nonceList(ctx, validator), i).FeederID) != feederID))
+//@ loop #1
+//@   invariant -1 <= phi1 && phi1 < len(old(nonceList(ctx, validator)))
+//@   invariant state(ctx) == old(state(ctx)) && heapsame["x/oracle/types.Nonce"]()
+//@   invariant forall(i, 0, phi1 + 1, old(nonceAt(nonceList(ctx, validator), i).FeederID) != feederID)
+
+// The NST balance update triggered by a new price writes other parts of the state, never the price store
+//@ func (Keeper).UpdateNSTByBalanceChange
+//@   flag assumed
+//@   modifies state(ctx)
+//@   ensures forallb(k, get(ctx, "oracle", cat(str("Prices/value/"), k)) == old(get(ctx, "oracle", cat(str("Prices/value/"), k))))
+
+//@ define roundRaw(c, tok, r) = get(c, "oracle", priceStoreKey(tok, cat(u64be(r), "/")))
+
+//@ func (Keeper).AppendPriceTR
+//@   requires nextRoundRaw(ctx, tokenID) == nil || (0 <= be2u64(nextRoundRaw(ctx, tokenID)) && be2u64(nextRoundRaw(ctx, tokenID)) < 18446744073709551615)
+//@   flag pure=AggregatorContext).GetParams,Keeper).GetParams,GetAssetIDsFromTokenID,IsNST
+//@   modifies state(ctx)
+//@   ensures[C12.aptr.accept]  result <==> (priceTR.RoundID == old(nextRound(ctx, tokenID)))
+//@   ensures[C12.aptr.reject]  !result ==> state(ctx) == old(state(ctx))
+//@   ensures[C12.aptr.advance] result ==> nextRound(ctx, tokenID) == old(nextRound(ctx, tokenID)) + 1 &&
+//@        roundRaw(ctx, tokenID, priceTR.RoundID) != nil &&
+//@        unm["x/oracle/types.PriceTimeRound"](roundRaw(ctx, tokenID, priceTR.RoundID)) == norm["x/oracle/types.PriceTimeRound"](priceTR)
+//@ loop #1
+//@   invariant nextRound(ctx, tokenID) == old(nextRound(ctx, tokenID)) + 1
+//@   invariant roundRaw(ctx, tokenID, priceTR.RoundID) != nil &&
+//@        unm["x/oracle/types.PriceTimeRound"](roundRaw(ctx, tokenID, priceTR.RoundID)) == norm["x/oracle/types.PriceTimeRound"](priceTR)
